@@ -14,20 +14,20 @@ import hashlib, json, os, random, re, subprocess, sys, time
 
 VERIF = os.path.dirname(os.path.dirname(os.path.abspath(__file__)))
 FILES = {
-    "src/data_model.rs": ["C01", "C02", "C06", "C09"],
-    "src/model.rs": ["C16", "C03", "C17", "C04", "C01"],
+    "src/data_model.rs": ["C01", "C02", "C06", "C05", "C09"],
+    "src/model.rs": ["C16", "C03", "C17", "C04", "C01", "C15"],
     "src/execution/expression_execution.rs": ["C03", "C09", "C16"],
     "src/execution/aggregate_execution.rs": ["C04", "C15", "C11", "C08"],
     "src/execution/join.rs": ["C05", "C19", "C12"],
-    "src/execution/execution_engine.rs": ["C03", "C07", "C06", "C11", "C05"],
+    "src/execution/execution_engine.rs": ["C03", "C07", "C06", "C11", "C05", "C19", "C04"],
     "src/execution/select_execution.rs": ["C03", "C08"],
     "src/execution/helpers.rs": ["C08", "C16"],
     "src/execution/column_providers.rs": ["C05", "C03"],
     "src/helpers.rs": ["C10"],
-    "src/executor.rs": ["C12", "C17", "C19", "C07", "C10"],
+    "src/executor.rs": ["C12", "C17", "C19", "C07", "C10", "C09"],
     "src/parsing/tokenizer.rs": ["C14", "C20", "C13"],
-    "src/parsing/parser.rs": ["C13", "C14", "C20"],
-    "src/parsing/parser_tree_converter.rs": ["C14", "C03", "C04", "C20"],
+    "src/parsing/parser.rs": ["C13", "C14", "C20", "C01", "C04", "C05"],
+    "src/parsing/parser_tree_converter.rs": ["C14", "C03", "C04", "C20", "C01", "C11"],
 }
 # (name, regex, replacement) - applied to one occurrence on one line
 OPS = [
